@@ -73,44 +73,44 @@ type WNet struct {
 }
 
 type WConfig struct {
-	Client       string `json:"client"` // plain | unil | chrome115 | chrome115v6 | chrome146 | firefox116 | firefox116b | firefox116c
+	Client       string   `json:"client"` // plain | unil | chrome115 | chrome115v6 | chrome146 | firefox116 | firefox116b | firefox116c
 	Derive       *WDerive `json:"derive,omitempty"`
-	Version      int    `json:"version"` // 1 or 2 (plain clients); server offers both
-	ServerCIDLen int    `json:"server_cid_len"`
-	ClientCIDLen int    `json:"client_cid_len"`
-	Retry        bool   `json:"retry,omitempty"`
-	ChainLen     int    `json:"chain_len,omitempty"`
+	Version      int      `json:"version"` // 1 or 2 (plain clients); server offers both
+	ServerCIDLen int      `json:"server_cid_len"`
+	ClientCIDLen int      `json:"client_cid_len"`
+	Retry        bool     `json:"retry,omitempty"`
+	ChainLen     int      `json:"chain_len,omitempty"`
 	// windows (0 = library default)
-	Win          [4]uint64 `json:"win,omitempty"` // client stream, client conn, server stream, server conn initial windows
-	MaxWin       [4]uint64 `json:"max_win,omitempty"`
-	IdleMS       [2]int64  `json:"idle_ms,omitempty"` // client, server MaxIdleTimeout
-	KeepAliveMS  [2]int64  `json:"keepalive_ms,omitempty"`
-	HSIdleMS     [2]int64  `json:"hs_idle_ms,omitempty"`
-	MaxStreams   [2]int64  `json:"max_streams,omitempty"`    // incoming bidi limit client, server
-	MaxUniStreams [2]int64 `json:"max_uni_streams,omitempty"`
-	NoPMTUD      [2]bool   `json:"no_pmtud,omitempty"`
-	InitialPktSize [2]int  `json:"initial_pkt_size,omitempty"`
-	Datagrams    [2]bool   `json:"datagrams,omitempty"`
-	KeyUpdate    int       `json:"key_update,omitempty"` // packets per key generation (0 = default)
-	ResetPartial [2]bool   `json:"reset_partial,omitempty"`
-	Allow0RTT    bool      `json:"allow_0rtt,omitempty"`
-	SchedNum     uint32    `json:"sched_num,omitempty"` // run-next perturbation (n/256)
+	Win            [4]uint64 `json:"win,omitempty"` // client stream, client conn, server stream, server conn initial windows
+	MaxWin         [4]uint64 `json:"max_win,omitempty"`
+	IdleMS         [2]int64  `json:"idle_ms,omitempty"` // client, server MaxIdleTimeout
+	KeepAliveMS    [2]int64  `json:"keepalive_ms,omitempty"`
+	HSIdleMS       [2]int64  `json:"hs_idle_ms,omitempty"`
+	MaxStreams     [2]int64  `json:"max_streams,omitempty"` // incoming bidi limit client, server
+	MaxUniStreams  [2]int64  `json:"max_uni_streams,omitempty"`
+	NoPMTUD        [2]bool   `json:"no_pmtud,omitempty"`
+	InitialPktSize [2]int    `json:"initial_pkt_size,omitempty"`
+	Datagrams      [2]bool   `json:"datagrams,omitempty"`
+	KeyUpdate      int       `json:"key_update,omitempty"` // packets per key generation (0 = default)
+	ResetPartial   [2]bool   `json:"reset_partial,omitempty"`
+	Allow0RTT      bool      `json:"allow_0rtt,omitempty"`
+	SchedNum       uint32    `json:"sched_num,omitempty"` // run-next perturbation (n/256)
 }
 
 // WDerive describes modifications applied to a built-in spec (C02/C09/C10/C11 families); see specs_test.go.
 type WDerive struct {
-	Builder     string  `json:"builder,omitempty"`
-	P           []int64 `json:"p,omitempty"`
-	InitPN      int64   `json:"init_pn,omitempty"`
-	PNLens      []int   `json:"pn_lens,omitempty"`
-	Token       string  `json:"token,omitempty"`
-	SrcCIDLen   int     `json:"src_cid_len,omitempty"`
-	DstCIDLen   int     `json:"dst_cid_len,omitempty"`
-	UDPMin      int     `json:"udp_min,omitempty"`
-	Suppress    []uint64 `json:"suppress,omitempty"`
-	Shuffle     int     `json:"shuffle,omitempty"` // 0 keep, 1 on, 2 off
-	PadCH       int     `json:"pad_ch,omitempty"`
-	TPs         string  `json:"tps,omitempty"`
+	Builder   string   `json:"builder,omitempty"`
+	P         []int64  `json:"p,omitempty"`
+	InitPN    int64    `json:"init_pn,omitempty"`
+	PNLens    []int    `json:"pn_lens,omitempty"`
+	Token     string   `json:"token,omitempty"`
+	SrcCIDLen int      `json:"src_cid_len,omitempty"`
+	DstCIDLen int      `json:"dst_cid_len,omitempty"`
+	UDPMin    int      `json:"udp_min,omitempty"`
+	Suppress  []uint64 `json:"suppress,omitempty"`
+	Shuffle   int      `json:"shuffle,omitempty"` // 0 keep, 1 on, 2 off
+	PadCH     int      `json:"pad_ch,omitempty"`
+	TPs       string   `json:"tps,omitempty"`
 }
 
 // ---------------------------------------------------------------- router
@@ -123,6 +123,7 @@ type DgramRec struct {
 	Fate      string // "", drop, dup, delay, corrupt, trunc, outage, mtu
 	Delivered []int64
 	Damaged   bool
+	PktState  []int8 // per packet of the datagram: 0 delivered intact, 1 possibly lost (framing of an earlier packet damaged), 2 damaged
 	Pkts      []*TapPacket
 	Hash      uint64
 }
@@ -158,37 +159,27 @@ type World struct {
 	Res   *KResult
 	Start time.Time
 
-	mu      sync.Mutex
-	q       wHeap
-	seq     uint64
-	wake    chan struct{}
-	done    chan struct{}
-	drvDone chan struct{}
-	nodes   map[string]simnet.PacketReceiver
-	Tap     *Wiretap
-	Log     [2][]*DgramRec
-	explicit map[[2]int][]WFault
-	Fired   []WFault // non-default decisions taken (becomes the explicit list of the replay file)
-	rebound bool
-	OnSend  func(rec *DgramRec, data []byte) // oracle hook, called at send time (after tap decode)
+	mu        sync.Mutex
+	q         wHeap
+	seq       uint64
+	wake      chan struct{}
+	done      chan struct{}
+	drvDone   chan struct{}
+	nodes     map[string]simnet.PacketReceiver
+	Tap       *Wiretap
+	Log       [2][]*DgramRec
+	explicit  map[[2]int][]WFault
+	Fired     []WFault // non-default decisions taken (becomes the explicit list of the replay file)
+	rebound   bool
+	OnSend    func(rec *DgramRec, data []byte) // oracle hook, called at send time (after tap decode)
 	OnDeliver func(rec *DgramRec, data []byte, damaged bool)
-	bytes   [2]int64 // bytes put on the wire per direction
-	// last delivery of an undamaged datagram per destination (starvation accounting)
-	lastGood [2]int64
-	maxGap   [2]int64
-	trace    uint64
-	maxDeliv map[wMaxKey]int64
-}
-
-type wMaxKey struct {
-	c   *TapConn
-	dir int
-	sp  int
+	bytes     [2]int64 // bytes put on the wire per direction
+	trace     uint64
 }
 
 func NewWorld(t *testing.T, seed uint64, n *WNet, res *KResult) *World {
 	w := &World{T: t, Seed: seed, Net: n, Res: res, Start: time.Now(), wake: make(chan struct{}, 1), done: make(chan struct{}),
-		drvDone: make(chan struct{}), nodes: map[string]simnet.PacketReceiver{}, explicit: map[[2]int][]WFault{}, maxDeliv: map[wMaxKey]int64{}}
+		drvDone: make(chan struct{}), nodes: map[string]simnet.PacketReceiver{}, explicit: map[[2]int][]WFault{}}
 	w.Tap = NewWiretap(func() int64 { return int64(time.Since(w.Start)) })
 	return w
 }
@@ -326,6 +317,32 @@ func (w *World) SendPacket(p simnet.Packet) error {
 		w.Res.Fault("mtu-blackhole")
 	}
 	rec.Damaged = damaged
+	rec.PktState = make([]int8, len(rec.Pkts))
+	for _, f := range faults {
+		switch f.Kind {
+		case "corrupt":
+			if int(f.A) >= len(p.Data) || f.B&0xff == 0 {
+				continue
+			}
+			for i, pk := range rec.Pkts {
+				if int(f.A) >= pk.Off && int(f.A) < pk.Off+pk.Size {
+					rec.PktState[i] = 2
+					// damage to a long header (length field, connection IDs) can break the framing of what follows
+					if pk.Type != Tap1RTT && int(f.A) < pk.Off+max(pk.HdrLen, 7) {
+						for j := i + 1; j < len(rec.Pkts); j++ {
+							rec.PktState[j] = max(rec.PktState[j], 1)
+						}
+					}
+				}
+			}
+		case "trunc":
+			for i, pk := range rec.Pkts {
+				if pk.Off+pk.Size > int(f.A) {
+					rec.PktState[i] = 2
+				}
+			}
+		}
+	}
 	dest := to
 	if dir == 1 && to.String() == wClientAddr2.String() {
 		dest = wClientAddr // NAT maps back
@@ -350,32 +367,8 @@ func (w *World) deliver(rec *DgramRec, pkt simnet.Packet, damaged bool) {
 	w.mu.Lock()
 	firstCopy := len(rec.Delivered) == 0
 	rec.Delivered = append(rec.Delivered, now)
-	// What certainly restarts the receiver's idle period: the first undamaged copy of a datagram carrying a packet
-	// whose number is a new largest in its space (a duplicate is not processed, and a very late packet may lie
-	// below the receiver's duplicate-detection horizon and be dropped as a potential duplicate).
-	fresh := false
-	if !damaged && firstCopy {
-		for _, p := range rec.Pkts {
-			if p.Opened && p.Conn != nil && !p.Conn.Shadow {
-				k := wMaxKey{p.Conn, p.Dir, p.Space()}
-				if old, ok := w.maxDeliv[k]; !ok || p.PN > old {
-					w.maxDeliv[k] = p.PN
-					fresh = true
-				}
-			}
-			// Retry, Version Negotiation and 0-RTT packets are not counted: whether they restart the idle period is
-			// an implementation choice the properties do not speak about
-		}
-	}
-	if !damaged && firstCopy {
-		w.Tap.Delivered(rec.Dir, rec.Ord)
-	}
-	if fresh {
-		dst := 1 - rec.Dir // 0 = client ... index by receiving side: dir 0 is received by the server (index 1)
-		if g := now - w.lastGood[dst]; g > w.maxGap[dst] {
-			w.maxGap[dst] = g
-		}
-		w.lastGood[dst] = now
+	if firstCopy {
+		w.Tap.Delivered(rec.Dir, rec.Ord, rec.PktState)
 	}
 	w.trace = KMix(w.trace, uint64(now), 77, uint64(rec.Dir), uint64(rec.Ord))
 	if w.OnDeliver != nil {
@@ -532,21 +525,21 @@ func wGenPKI(chain int) *wPKI {
 const wALPN = "h3" // the built-in fingerprints carry ALPN h3
 
 type Nodes struct {
-	W        *World
-	Cfg      *WConfig
-	PKI      *wPKI
-	CConn    *simnet.SimConn
-	SConn    *simnet.SimConn
-	CTr      *quic.Transport
-	UTr      *quic.UTransport
-	STr      *quic.Transport
-	Ln       *quic.Listener
-	ELn      *quic.EarlyListener
-	CTLS     *tls.Config
-	STLS     *tls.Config
-	CQ       *quic.Config
-	SQ       *quic.Config
-	Spec     *quic.QUICSpec
+	W            *World
+	Cfg          *WConfig
+	PKI          *wPKI
+	CConn        *simnet.SimConn
+	SConn        *simnet.SimConn
+	CTr          *quic.Transport
+	UTr          *quic.UTransport
+	STr          *quic.Transport
+	Ln           *quic.Listener
+	ELn          *quic.EarlyListener
+	CTLS         *tls.Config
+	STLS         *tls.Config
+	CQ           *quic.Config
+	SQ           *quic.Config
+	Spec         *quic.QUICSpec
 	SessionCache tls.ClientSessionCache
 	TokenStore   quic.TokenStore
 }
